@@ -94,6 +94,8 @@ func c06Whitelists() []*c06WL {
 		c06MakeWL("any-port", "allowed.example:*"),
 		c06MakeWL("dot-any-port", ".allowed.example:*"),
 		c06MakeWL("wildcard-port", "*.allowed.example:8080"),
+		// entries without a host part (an empty templated value, a trailing comma): they name no host
+		c06MakeWL("blank-entries", "", ":*", "sub.allowed.example"),
 	}
 }
 
@@ -281,7 +283,7 @@ func c06Product(size int) []string {
 		tails = []string{"", "/p?q=1", "\\@allowed.example", "@evil.example", "/..//evil.example"}
 	}
 	if size == 2 {
-		schemes = []string{"http://", "https://", "http:/", "http:\\\\", "HTTP://", "//", "https:"}
+		schemes = []string{"http://", "https://", "http:/", "http:\\\\", "HTTP://", "//", "https:", "https:///", "http:////"}
 		userinfos = []string{"", "a@", "allowed.example@", "allowed.example:8080@"}
 		hosts = []string{"allowed.example", "sub.allowed.example", "xallowed.example", "evil.example", "good.example", "ALLOWED.example", "allowed.example.evil.example", "[::1]", "127.1"}
 		suffixes = []string{"", ".", "%2e", "\u3002"}
@@ -297,6 +299,21 @@ func c06Product(size int) []string {
 				for _, h := range []string{"evil.example", "allowed.example", "good.example"} {
 					for _, t := range []string{"", "/x"} {
 						out = append(out, a+mid+b+h+t)
+					}
+				}
+			}
+		}
+	}
+	// cleaning gadgets: net/http.Redirect cleans everything before the first '?' as a path (dot
+	// segments removed), the fragment included — a segment the validator may regard as inert (it never
+	// leaves the browser, or it is a plain name) followed by ".." disappears together with it and what
+	// follows moves to the front
+	for _, pre := range []string{"/#", "/a", "/.", "/#a", "/a#", "/%23", "/;", "/a;b", "/#/a"} {
+		for _, dots := range []string{"/..", "/../..", "/./.."} {
+			for _, b := range []string{"/", "\\", "//", "/\\", "\\/", "\\\\"} {
+				for _, h := range []string{"evil.example", "allowed.example"} {
+					for _, t := range []string{"", "/"} {
+						out = append(out, pre+dots+b+h+t)
 					}
 				}
 			}
@@ -1194,7 +1211,7 @@ func init() {
 		id:    "C06",
 		level: "exploration",
 		rule: "layer 1: every concatenation of <= L1 tokens (+ absolute-URL grammar product) x 8 whitelists through IsValidRedirect, accepted strings through the real http.Redirect + header serialisation + independent WHATWG resolver; " +
-			"layer 2: every concatenation of <= L2 tokens (+ product) x 8 whitelists x 27 real entry points of a built proxy (Location of every 3xx, action/hidden rd/links of sign-in and error pages, login-start target); " +
+			"layer 2: every concatenation of <= L2 tokens (+ product) x 9 whitelists x 27 real entry points of a built proxy (Location of every 3xx, action/hidden rd/links of sign-in and error pages, login-start target); " +
 			"layer 3: every plain path (<= depth segments) x query x 3 login flows must land byte for byte. " +
 			"non-trivial = layer 1: distinct string the validator accepted under some whitelist; layer 2: distinct (entry, whitelist, string) whose observed target is not the fallback \"/\"; layer 3: distinct (flow, page) that landed exactly",
 		assumptions: []string{
